@@ -33,7 +33,7 @@ func init() {
 			}
 			return 4
 		},
-		Cases:       func(r *obs.Run) int { return r.Share(r.Pick(4000, 100000)) },
+		Cases:       func(r *obs.Run) int { return r.Share(r.Pick(10000, 100000)) },
 		Case:        c02Case,
 		MinDistinct: func(t string) int { return 2000 },
 		Floors: func(string) map[string]int64 {
